@@ -85,8 +85,9 @@ class BProg:
         # variants: list of (name, kind, variant_slots, fields) ; fields: list of (name, ty, field_slots)
         self.trait, self.is_enum, self.type_slots, self.variants, self.where = trait, is_enum, type_slots, variants, where
         self.default_variant = 0
+        self.valued = set()        # (variant name, field name) of fields carrying an explicit `#[default(expr, ..)]` value (Default only)
 
-    def attrs_for(self, slots, placement):
+    def attrs_for(self, slots, placement, valued=False):
         """attribute text for one placement"""
         out = []
         this = next((s for s in slots if s.kind == "this"), None)
@@ -96,7 +97,9 @@ class BProg:
                 bt = s.bound_text()
                 a = s.kind.split(":")[1]
                 if bt is not None:
-                    out.append("#[%s(%s)]" % (a, ("_, " + bt) if a == "default" else bt))
+                    out.append("#[%s(%s)]" % (a, (("Default::default(), " if valued else "_, ") + bt) if a == "default" else bt))
+                elif valued and a == "default":
+                    out.append("#[default(Default::default())]")
         tb = this.bound_text() if this else None
         cb = common.bound_text() if common else None
         if placement != "type" and (tb is not None or cb is not None):
@@ -113,12 +116,12 @@ class BProg:
 
     def item_text(self):
         ta = self.attrs_for(self.type_slots, "type")
-        def fields_text(kind, fields):
+        def fields_text(kind, fields, vn="X"):
             if kind == "unit":
                 return ""
             fs = []
             for (n, ty, sl) in fields:
-                at = self.attrs_for(sl, "field")
+                at = self.attrs_for(sl, "field", (vn, n) in self.valued)
                 fs.append("%s %s%s" % (at, (n + ": ") if kind == "named" else "", ty))
             return (" { %s }" if kind == "named" else "(%s)") % ", ".join(fs)
         if self.is_enum:
@@ -127,7 +130,7 @@ class BProg:
                 va = self.attrs_for(vsl, "variant")
                 if self.trait == "Default" and i == self.default_variant and "#[default" not in va:
                     va = "#[default] " + va
-                vs.append("%s %s%s" % (va, vn, fields_text(kind, fields)))
+                vs.append("%s %s%s" % (va, vn, fields_text(kind, fields, vn)))
             return "%s enum X<T> where %s { %s }" % (ta, self.where, ", ".join(vs))
         vn, kind, vsl, fields = self.variants[0]
         if kind == "named":
@@ -150,7 +153,7 @@ class BProg:
                     preds, vgo = walk((preds, go), vsl, form)
                 for (n, ty, fsl) in fields:
                     preds, fgo = walk((preds, vgo), fsl, form)
-                    if fgo and "T" in re.findall(r"\w+", ty):
+                    if fgo and "T" in re.findall(r"\w+", ty) and (vn, n) not in self.valued:
                         preds.append(form(ty))
             out.append(sorted(norm(p) for p in preds))
         return out
@@ -198,7 +201,14 @@ def random_prog(rng, trait, is_enum, density=0.45):
         if trait in ("Deref", "DerefMut"):
             fields = fields[:1]
         vs = [("X", kind, [], fields)]
-    return BProg(trait, is_enum, tslots, vs)
+    prog = BProg(trait, is_enum, tslots, vs)
+    if trait == "Default":
+        # explicit default values: the field's own bound(..) levels still apply, only its default field bound goes away
+        for (vn, kind, vsl, fields) in vs:
+            for (n, ty, fsl) in fields:
+                if rng.random() < 0.35:
+                    prog.valued.add((vn, n))
+    return prog
 
 
 def check_prog(ex, prog, entry="attr"):
